@@ -2,6 +2,7 @@ import Skglm.Spec.Penalties
 import Skglm.Proofs.Prox
 import Skglm.Proofs.BlockProx
 import Skglm.Proofs.ProxScad
+import Skglm.Proofs.Prox05
 /-
   C07 — proximal operators return a global minimiser of the prox objective.
 
@@ -121,5 +122,41 @@ example : Admissible (.mcp (1:ℝ) 3 false) 1 1 ∧ (SepPen.mcp (1:ℝ) 3 false)
   constructor
   · simp [Admissible]
   · simp [SepPen.prox1, prox_MCP, sabs_eq, sgn]; norm_num
+
+/-! ### L0.5 (`prox_05`): partial. The full statement — `prox_05 x u` is a global minimiser of
+    `z ↦ ½(z-x)² + u√|z|` — is NOT proved (the comparison of the stationary value with `z = 0` at the
+    threshold is observed by the brute-force oracle only). What is proved for every real `x`:
+    exact zero below the threshold, a shrinkage factor in `[1/3, 1]` at or above it (sign kept, never
+    enlarged, non-zero, finite at zero input), and first-order stationarity of the returned value. -/
+
+/-- the L0.5 penalty's prox is `prox_05` with `u = α·step`; below `(3/2)u^{2/3}` it is exactly zero -/
+theorem prox_l05_partial_below (a x s : ℝ) (h : |x| < (3 : ℝ) / 2 * (a * s) ^ ((2 : ℝ) / 3)) :
+    (SepPen.l05 a).prox1 1 x s = 0 := Proofs.prox_05_below x (a * s) h
+
+/-- at or above the threshold: `x` times a factor in `[1/3, 1]` -/
+theorem prox_l05_partial_above (a x s : ℝ) (hu : 0 ≤ a * s)
+    (h : ¬ |x| < (3 : ℝ) / 2 * (a * s) ^ ((2 : ℝ) / 3)) :
+    (SepPen.l05 a).prox1 1 x s = x * Proofs.factor05 x (a * s) ∧
+      (1 : ℝ) / 3 ≤ Proofs.factor05 x (a * s) ∧ Proofs.factor05 x (a * s) ≤ 1 :=
+  ⟨Proofs.prox_05_above x (a * s) h, Proofs.factor05_bounds x (a * s) hu⟩
+
+/-- shrinkage and sign, every real input, zero input included -/
+theorem prox_l05_partial_shrinks (x u : ℝ) (hu : 0 ≤ u) :
+    |prox_05 x u| ≤ |x| ∧ 0 ≤ prox_05 x u * x := Proofs.prox_05_shrinks x u hu
+
+theorem prox_l05_partial_zero_input (u : ℝ) (hu : 0 ≤ u) : prox_05 (0 : ℝ) u = 0 := Proofs.prox_05_zero u hu
+
+/-- the support is decided by the threshold alone -/
+theorem prox_l05_partial_support (x u : ℝ) (hu : 0 < u) (h : ¬ |x| < (3 : ℝ) / 2 * u ^ ((2 : ℝ) / 3)) :
+    prox_05 x u ≠ 0 := Proofs.prox_05_ne_zero x u hu h
+
+/-- the returned non-zero value is a critical point of the prox objective (`x > 0`; `cos 3θ` identity) -/
+theorem prox_l05_partial_stationary (x u : ℝ) (hx : 0 < x) (hu : 0 < u)
+    (h : ¬ |x| < (3 : ℝ) / 2 * u ^ ((2 : ℝ) / 3)) :
+    prox_05 x u - x + u / (2 * Real.sqrt (prox_05 x u)) = 0 := Proofs.prox_05_stationary x u hx hu h
+
+/-- non-vacuity: `x = 3, u = 1` is above the threshold `3/2` -/
+example : ¬ |(3:ℝ)| < (3 : ℝ) / 2 * (1:ℝ) ^ ((2 : ℝ) / 3) := by norm_num
+
 
 end Skglm.C07
